@@ -1250,6 +1250,11 @@ func readers(s *simrt.Sim, top *asyncClient, sameCall bool, trace *[]string) []*
 		wl := at.NewList()
 		wo := at.NewObject()
 		n := 17 + s.Draw("wide-n", 60)
+		if s.Draw("wide-tail", 3) == 0 {
+			// far beyond: strategies that start at a hundred or a thousand elements (shared scratch space for long containers)
+			n = []int{100, 128, 129, 192, 200, 256, 257, 400, 512, 600, 1024, 1025, 2049}[s.Draw("wide-tail-n", 13)]
+			top.ops["probe:readers-very-wide-heap"]++
+		}
 		for i := 0; i < n; i++ {
 			v := genValue(s, treeOpts{depth: 1, width: 3, keys: plainKeyPool})
 			wl.Add(v)
